@@ -15,8 +15,8 @@ def sh(cmd, cwd=None, env=None, timeout=1800):
     return p.returncode, p.stdout + p.stderr
 
 
-def confirm(prop):
-    src = '/tmp/seed-%s/seed_out' % prop
+def confirm(prop, rnd=''):
+    src = '/tmp/seed%s-%s/seed_out' % (rnd, prop)
     wt = '/tmp/seedcheck-%s' % prop
     sh('git -C /repo worktree remove --force %s' % wt)
     rc, out = sh('git -C /repo worktree add -q %s HEAD' % wt)
@@ -27,7 +27,7 @@ def confirm(prop):
             d = os.path.join(src, i)
             if not os.path.exists(os.path.join(d, 'patch.diff')):
                 continue
-            name = '%s-%s' % (prop, i)
+            name = '%s-%s%s' % (prop, 'r2-' if rnd else '', i)
             meta = {'property': prop, 'seed': name, 'confirmed_at': time.strftime('%Y-%m-%dT%H:%M:%SZ', time.gmtime())}
             ran = []
             sh('git checkout -- . && rm -f tests/demo_seed.rs', cwd=wt)
@@ -98,5 +98,8 @@ if __name__ == '__main__':
     if sys.argv[1] == 'confirm':
         for p in sys.argv[2:]:
             confirm(p)
+    elif sys.argv[1] == 'confirm2':
+        for p in sys.argv[2:]:
+            confirm(p, '2')
     elif sys.argv[1] == 'run':
         run(sys.argv[2:])
